@@ -31,6 +31,85 @@ type Canon struct {
 	ObsOK   func(o types.Object, def ast.Expr, use *ast.Ident) bool
 	// Inline, when set, gives the formula a boolean helper call stands for (nil: keep the call as an atom).
 	Inline func(call *ast.CallExpr) *F
+	// InlineExpr, when set, names the helpers whose call prints as their single returned expression (same package,
+	// body `return e`, deterministic observer): the declaration, or nil.
+	InlineExpr func(call *ast.CallExpr) *ast.FuncDecl
+	env        map[types.Object]ast.Expr // parameters of the helpers being printed -> the caller's arguments
+}
+
+// inlineCall binds the parameters of an expression helper to the arguments of call and returns the helper's returned
+// expression; restore must be called when the expression has been printed. nil when the call is not inlined.
+func (c *Canon) inlineCall(call *ast.CallExpr) (ast.Expr, func()) {
+	if c.InlineExpr == nil || c.depth > 10 || call.Ellipsis.IsValid() {
+		return nil, nil
+	}
+	decl := c.InlineExpr(call)
+	if decl == nil || decl.Body == nil || len(decl.Body.List) != 1 {
+		return nil, nil
+	}
+	ret, ok := decl.Body.List[0].(*ast.ReturnStmt)
+	if !ok || len(ret.Results) != 1 {
+		return nil, nil
+	}
+	var params []*ast.Ident
+	var args []ast.Expr
+	if decl.Recv != nil && len(decl.Recv.List) == 1 {
+		sel, ok := ast.Unparen(call.Fun).(*ast.SelectorExpr)
+		if !ok {
+			return nil, nil
+		}
+		if len(decl.Recv.List[0].Names) == 1 {
+			params = append(params, decl.Recv.List[0].Names[0])
+		} else {
+			params = append(params, nil)
+		}
+		args = append(args, sel.X)
+	}
+	for _, f := range decl.Type.Params.List {
+		if _, variadic := f.Type.(*ast.Ellipsis); variadic {
+			return nil, nil
+		}
+		if len(f.Names) == 0 {
+			params = append(params, nil)
+		}
+		for _, n := range f.Names {
+			params = append(params, n)
+		}
+	}
+	args = append(args, call.Args...)
+	if len(params) != len(args) {
+		return nil, nil
+	}
+	if c.env == nil {
+		c.env = map[types.Object]ast.Expr{}
+	}
+	type saved struct {
+		o   types.Object
+		e   ast.Expr
+		had bool
+	}
+	var sv []saved
+	for i, p := range params {
+		if p == nil || p.Name == "_" {
+			continue
+		}
+		o := c.Info.Defs[p]
+		if o == nil {
+			continue
+		}
+		old, had := c.env[o]
+		sv = append(sv, saved{o, old, had})
+		c.env[o] = args[i]
+	}
+	return ret.Results[0], func() {
+		for _, x := range sv {
+			if x.had {
+				c.env[x.o] = x.e
+			} else {
+				delete(c.env, x.o)
+			}
+		}
+	}
 }
 
 // AddInlined makes the canon of a function cover the helper bodies spliced into its graph (flow.BuildInlining):
@@ -58,12 +137,31 @@ func (c *Canon) AddInlined(body *ast.BlockStmt, inl []*InlinedCall, alias map[ty
 		bodies = append(bodies, ic.Decl.Body)
 	}
 	for _, ic := range inl {
-		for _, l := range ic.Lhs {
+		// a helper with a single return statement defines the call's left-hand side once, by the returned expressions
+		var rets []*ast.ReturnStmt
+		ast.Inspect(ic.Decl.Body, func(n ast.Node) bool {
+			switch x := n.(type) {
+			case *ast.FuncLit:
+				return false
+			case *ast.ReturnStmt:
+				rets = append(rets, x)
+			}
+			return true
+		})
+		for i, l := range ic.Lhs {
 			if id, ok := ast.Unparen(l).(*ast.Ident); ok {
 				if o := c.Info.ObjectOf(id); o != nil {
+					_, wasSingle := c.obsCand[o]
 					delete(c.expand, o)
 					delete(c.obsCand, o)
 					delete(c.tuple, o)
+					if wasSingle && len(rets) == 1 && len(rets[0].Results) == len(ic.Lhs) {
+						if res := rets[0].Results[i]; c.pureExpr(res) {
+							c.expand[o] = res
+						} else {
+							c.obsCand[o] = res
+						}
+					}
 				}
 			}
 		}
@@ -434,6 +532,13 @@ func (c *Canon) Term(e ast.Expr) string {
 		if o == nil {
 			return x.Name
 		}
+		if arg, ok := c.env[o]; ok {
+			// a parameter of the helper being printed: the caller's argument, printed outside the helper's bindings
+			delete(c.env, o)
+			t := c.Term(arg)
+			c.env[o] = arg
+			return t
+		}
 		if r, ok := c.roles[o]; ok {
 			return r
 		}
@@ -463,6 +568,11 @@ func (c *Canon) Term(e ast.Expr) string {
 		}
 		return c.Term(x.X) + "." + x.Sel.Name
 	case *ast.CallExpr:
+		if e, restore := c.inlineCall(x); e != nil {
+			t := c.Term(e)
+			restore()
+			return t
+		}
 		// a conversion to the type the operand already has is the operand
 		if tv, ok := c.Info.Types[x.Fun]; ok && tv.IsType() && len(x.Args) == 1 {
 			if at := c.Info.TypeOf(x.Args[0]); at != nil && types.Identical(at, tv.Type) {
@@ -646,6 +756,13 @@ func (c *Canon) atom(e ast.Expr) *F {
 			}
 		}
 	case *ast.CallExpr:
+		if e, restore := c.inlineCall(x); e != nil {
+			c.depth++
+			f := c.Formula(FromExpr(e))
+			c.depth--
+			restore()
+			return f
+		}
 		if c.Inline != nil && c.depth < 12 {
 			c.depth++
 			f := c.Inline(x)
@@ -663,6 +780,25 @@ func (c *Canon) atom(e ast.Expr) *F {
 		case token.LAND, token.LOR:
 			return c.Formula(FromExpr(x))
 		case token.EQL, token.NEQ, token.LSS, token.GTR, token.LEQ, token.GEQ:
+			// an expression helper on either side is compared as the expression it returns
+			if cx, ok := ast.Unparen(x.X).(*ast.CallExpr); ok {
+				if e, restore := c.inlineCall(cx); e != nil {
+					c.depth++
+					f := c.atom(&ast.BinaryExpr{X: e, Op: x.Op, OpPos: x.OpPos, Y: x.Y})
+					c.depth--
+					restore()
+					return f
+				}
+			}
+			if cy, ok := ast.Unparen(x.Y).(*ast.CallExpr); ok {
+				if e, restore := c.inlineCall(cy); e != nil {
+					c.depth++
+					f := c.atom(&ast.BinaryExpr{X: x.X, Op: x.Op, OpPos: x.OpPos, Y: e})
+					c.depth--
+					restore()
+					return f
+				}
+			}
 			// (a - b) cmp 0  ==>  a cmp b (signed arithmetic, overflow disregarded)
 			if nx, ny, ok := subZero(x.X, x.Y, func(e ast.Expr) bool { return c.constOf(e) == "0" }, func(e ast.Expr) bool {
 				t := c.Info.TypeOf(e)
@@ -707,6 +843,27 @@ func (c *Canon) atom(e ast.Expr) *F {
 
 // MakeCmp builds the normalised comparison formula.
 func MakeCmp(op token.Token, l, r, lc, rc string) *F {
+	// bytes.Compare / strings.Compare return -1, 0 or 1: `== 1` is `> 0`, `== -1` is `< 0`
+	if op == token.EQL || op == token.NEQ {
+		isCmp := func(t string) bool { return strings.HasPrefix(t, "bytes.Compare(") || strings.HasPrefix(t, "strings.Compare(") }
+		var f *F
+		switch {
+		case isCmp(l) && (rc == "1" || r == "1"):
+			f = MakeCmp(token.GTR, l, "0", "", "0")
+		case isCmp(l) && (rc == "-1" || r == "-1"):
+			f = MakeCmp(token.LSS, l, "0", "", "0")
+		case isCmp(r) && (lc == "1" || l == "1"):
+			f = MakeCmp(token.GTR, r, "0", "", "0")
+		case isCmp(r) && (lc == "-1" || l == "-1"):
+			f = MakeCmp(token.LSS, r, "0", "", "0")
+		}
+		if f != nil {
+			if op == token.NEQ {
+				return Not(f)
+			}
+			return f
+		}
+	}
 	switch op {
 	case token.EQL, token.NEQ:
 		if r < l {
